@@ -452,6 +452,10 @@ def exec_sums(ctx, case):
                 r = f"a Tree subclass overriding get_ndata: raised {type(e).__name__}: {str(e)[:100]}"
         if r:
             return ctx.violation("other-implementer", f"get_volume: {r}", case)
+        r = G.same_under_ambient(lambda: levels(tree) + [float(get_volume(tree, accuracy=3))],
+                                 pick=case["tree"]["seed"] // 4)
+        if r:
+            return ctx.violation("ambient-state", f"get_volume: {r}", case)
 
 
 def execute(ctx, case):
